@@ -260,7 +260,7 @@ check('C05', 'llparser',
       'Known finding F-C05 (templates nested in a sequence) is reported as KNOWN-FINDING.',
       'DESIGN.md section 4, C05')
 
-ENGINES['ghist'] = ('specs/ghist', ['C06'], 'GHist.tla (history model, report relation BranchOK), GHistCases.tla (history builder, '
+ENGINES['ghist'] = ('specs/ghist', ['C06', 'C07'], 'GHistComp.tla (component + parent histories with pins, IncludedAt), RepoOrder.tla (dependency graphs), GHist.tla (history model, report relation BranchOK), GHistCases.tla (history builder, '
                     'Satisfiable), GHistJudge.tla (judge of real reports); driver harness/drivers/c06.py, harness/ghmock.py')
 check('C06', 'ghist',
       'TLA+ relation between a git history and an acceptable report (per branch), checked satisfiable by TLC on every '
@@ -275,6 +275,20 @@ check('C06', 'ghist',
       'Trusted: TLC, the mock repository. Known finding F-C06 (head of a branch inside a lower-sorted branch) is '
       'reported as KNOWN-FINDING only when the report shows exactly the known pattern.',
       'DESIGN.md section 4, C06')
+
+check('C07', 'ghist',
+      'TLA+ spec of a component history, a parent history with monotone component pins and the set of parent builds '
+      'at which each report-related component build must be recorded (TLC: IncludedSomewhere, NeverTwiceOnAPath); '
+      'TLC-built repository pairs replayed on mock repositories; all dependency graphs for the repository order',
+      'All pairs of a linear component (2 commits, 0-2 build tags per commit) and a parent history of 2 (quick) / 3 '
+      '(thorough) commits with merges, tags, 1-2 branches and every non-decreasing pin assignment, plus TLC '
+      'simulations up to 4 component / 7 parent commits and 3 branches: RBuild.included_at of every report-related '
+      'component build must be exactly the ancestry-minimal builds (or unbuilt head) of each parent branch whose pin '
+      'contains it, each such parent build must be reported, supply order of the repositories varied.  All dependency '
+      'graphs on 2-3 (thorough: 4) repositories x all supply orders: components first, cycles rejected with ValueError.',
+      'Trusted: TLC, the mock repositories. Linear component; parent heads not inside a lower-sorted branch (finding '
+      'F-C06 of C06); commit times inside the cut-off windows.',
+      'DESIGN.md section 4, C07')
 
 ALL = ['C%02d' % i for i in range(1, 21)]
 
